@@ -34,7 +34,7 @@ def axis_values(n, start=0.0, step=1.0, descending=False, nonuniform=False):
 
 def cf1d(ny=3, nx=4, *, bounds=None, as_coords=True, descending_lat=False, descending_lon=False,
          nonuniform=False, lat_name='lat', lon_name='lon', ydim=None, xdim=None, time=2, depth=0,
-         extra=True, detect='units', bounds_shrink=0.25, origin=(100.0, -10.0), step=(2.0, 1.0)):
+         extra=True, detect='units', bounds_shrink=0.25, origin=(100.0, -10.0), step=(2.0, 1.0), leading_transposed=False):
     ydim = ydim or lat_name
     xdim = xdim or lon_name
     lat = axis_values(ny, origin[1], step[1], descending_lat, nonuniform)
@@ -43,6 +43,9 @@ def cf1d(ny=3, nx=4, *, bounds=None, as_coords=True, descending_lat=False, desce
     lon_attrs = {'units': 'degrees_east'} if detect == 'units' else ({'standard_name': 'longitude'} if detect == 'standard_name' else {'axis': 'X'})
     data_vars = {}
     coords = {}
+    if leading_transposed:
+        # a data variable stored x-major ahead of everything else: Dataset.sizes then lists x before y
+        data_vars['leading'] = xarray.DataArray(_data((nx, ny), 0.125), dims=[xdim, ydim])
     tgt = coords if as_coords else data_vars
     if bounds:
         lat_attrs['bounds'] = 'lat_bnds'
